@@ -414,6 +414,15 @@ impl BudgetEnforcer {
         self.containers.clear();
     }
 
+    /// Called when the rest of a failed document has been skipped without being observed
+    /// and the next document starts: under per-document enforcement the new document must
+    /// begin with a clean slate.
+    pub(crate) fn restart_document(&mut self) {
+        if self.policy == EnforcingPolicy::PerDocument {
+            self.reset_document();
+        }
+    }
+
     fn bump_nodes(&mut self) -> Result<(), BudgetBreach> {
         self.report.nodes += 1;
         if self.report.nodes > self.budget.max_nodes {
